@@ -2,6 +2,7 @@ package c17
 
 import (
 	"sort"
+	"strings"
 	"unicode"
 )
 
@@ -17,8 +18,33 @@ import (
 // An input with no feature is in the clean fragment: every oracle failure on it is a VIOLATION.
 func features(x string) []string {
 	set := map[string]bool{}
+	// the lexer and (since the repair) the formatter ignore CR altogether outside literal text;
+	// only a backslash right before a CR is different: the formatter escapes the CR, the lexer
+	// skips it and escapes what follows (CRLF line continuation)
+	// a BOM that is the first non-blank rune but not the first rune (CR counts as a blank here)
+	bomAfterBlank := false
+	if t := strings.TrimLeftFunc(x, unicode.IsSpace); len(t) < len(x) && strings.HasPrefix(t, "\uFEFF") {
+		bomAfterBlank = true
+	}
+	backslashCR := strings.Contains(x, "\\\r")
+	// `<<marker⏎` followed by white space only (at least one character, CR included): the lexer
+	// rejects the file (incomplete heredoc), Format trims the white space and the rest is accepted
+	blankHeredoc := false
+	if k := strings.LastIndex(x, "<<"); k >= 0 {
+		rest := x[k+2:]
+		if nl := strings.IndexByte(rest, '\n'); nl > 0 && len(rest) > nl+1 && strings.TrimSpace(rest[nl+1:]) == "" {
+			m := strings.ReplaceAll(rest[:nl], "\r", "") // the lexer skips CR in the marker
+			blankHeredoc = m != ""
+			for _, c := range m {
+				if !markerRune(c) {
+					blankHeredoc = false
+				}
+			}
+		}
+	}
+	x = strings.ReplaceAll(x, "\r", "")
 	if len(x) == 0 {
-		return []string{"empty-input"}
+		return nil
 	}
 	r := []rune(x) // invalid bytes become U+FFFD, as with ReadRune
 	n := len(r)
@@ -29,14 +55,27 @@ func features(x string) []string {
 	for first < n && sp(r[first]) {
 		first++
 	}
-	if r[0] == 0xFEFF || (first < n && r[first] == 0xFEFF) {
-		set["bom"] = true
+	if first < n && r[first] == 0xFEFF {
+		if first > 0 || bomAfterBlank {
+			// after trimming the BOM becomes the first rune of the output, where the lexer drops it
+			set["bom"] = true
+		}
+		// since the repair the formatter sets a leading BOM aside like the lexer: scan what follows
+		for k := 0; k <= first; k++ {
+			r[k] = ' '
+		}
 	}
 	end := n // end of the trimmed input
 	for end > 0 && sp(r[end-1]) {
 		end--
 	}
 
+	if backslashCR {
+		set["escape"] = true
+	}
+	if blankHeredoc {
+		set["angle-word"] = true
+	}
 	tokensOnLine := 0     // real tokens seen since the last newline
 	openOnLine := false   // a standalone `{` was seen on this line
 	closeOnLine := false  // a standalone `}` was seen on this line
@@ -95,8 +134,10 @@ func features(x string) []string {
 			closed := false
 			for j < n {
 				if r[j] == '\\' {
-					if j+1 < n && r[j+1] == '`' {
-						set["backtick-in-dquote"] = true // the formatter toggles on escaped backticks too
+					if j+1 < n && r[j+1] == '<' {
+						// `\<` inside quotes still arms the formatter's heredocEscaped flag, which
+						// survives the closing quote
+						set["escape"] = true
 					}
 					if j+1 < n && r[j+1] == '\n' {
 						newline()
@@ -123,10 +164,7 @@ func features(x string) []string {
 				i = n
 				break
 			}
-			i = j + 1
-			if i < n && !sp(r[i]) {
-				set["glued-after-quote"] = true
-			}
+			i = j + 1 // (a token glued to the closing quote starts here, for the lexer and, since the repair, for the formatter)
 		case c == '`':
 			startTok()
 			j := i + 1
@@ -148,29 +186,24 @@ func features(x string) []string {
 				i = n
 				break
 			}
-			i = j + 1
-			if i < n && !sp(r[i]) {
-				set["glued-after-quote"] = true
-			}
+			i = j + 1 // (a token glued to the closing quote starts here, for the lexer and, since the repair, for the formatter)
 		case c == '<':
 			startTok()
-			if e, empty, ok := wellFormedHeredoc(r, i); ok {
+			if e, empty, glued, ok := heredocSpan(r, i); ok {
 				if empty {
 					// Token.NumLineBreaks counts 2 for a heredoc without body lines although it spans 1
 					set["empty-heredoc"] = true
 				}
-				for _, hc := range r[i:e] {
-					if hc == '`' {
-						// the formatter toggles withinBackquote on every backtick, also inside heredocs
-						set["backtick-in-heredoc"] = true
-					}
+				if glued {
+					// the lexer ends the heredoc at the marker and starts a new token right there;
+					// the formatter needs white space after the marker
+					set["glued-after-quote"] = true
 				}
 				i = e
 				newline()
 				tokensOnLine = 1
 				break
 			}
-			set["angle-word"] = true
 			i = scanWord(r, i, set)
 		default:
 			w0 := i
@@ -227,6 +260,27 @@ func features(x string) []string {
 		}
 	}
 	_ = lastTokWasOpen
+	// a `<<…` that reaches the end of its line only through trailing blanks, or the end of the
+	// file: the lexer sees a plain token (a blank after the marker, or no newline at all), but
+	// Format strips trailing blanks and ends the file with a newline, which makes it the opening
+	// line of a heredoc
+	segs := strings.Split(x, "\n")
+	for k, l := range segs {
+		t := strings.TrimRightFunc(l, unicode.IsSpace)
+		if t == l && k < len(segs)-1 {
+			continue
+		}
+		for i := 0; i+1 < len(t); i++ {
+			if t[i] == '<' && t[i+1] == '<' && !strings.Contains(t[i+2:], " ") {
+				set["angle-word"] = true
+			}
+		}
+	}
+	// constructs that were risky before the formatter / lexer repairs (fix round): they are still
+	// recognised above and generated on purpose, but they no longer excuse a failure
+	for _, k := range repaired {
+		delete(set, k)
+	}
 	out := make([]string, 0, len(set))
 	for k := range set {
 		out = append(out, k)
@@ -235,13 +289,33 @@ func features(x string) []string {
 	return out
 }
 
+// repaired lists the features whose root cause was fixed in caddyconfig/caddyfile/formatter.go:
+// backquoted tokens are literal (was: every backtick toggled withinBackquote); a comment, a quote
+// and a heredoc start exactly where the lexer starts a token (after white space, after a closing
+// quote, behind a leading BOM) and nowhere else; a `{` ending the input is written; the empty
+// input stays empty; CR is ignored like in the lexer; heredoc detection uses its own flag and
+// the lexer's marker rules; an escaped newline sets the `space` flag.
+var repaired = []string{
+	"backtick-in-comment", "backtick-in-dquote", "backtick-in-heredoc", "backtick-in-word",
+	"ws-or-brace-in-backquote", "special-in-backquote", "hash-in-word", "dangling-open-brace-at-eof",
+	"empty-input", "cr-inside-word",
+	"special-right-after-line-continuation",
+}
+
 // scanWord consumes an unquoted word starting at i (up to the next white space) and records
 // the risky constructs inside it. Returns the index after the word.
 func scanWord(r []rune, i int, set map[string]bool) int {
 	n := len(r)
 	w0 := i
-	for i < n && !unicode.IsSpace(r[i]) {
-		i++
+	if i+1 < n && r[i] == '<' && r[i+1] == '<' {
+		// heredoc-marker rules of the lexer: only a blank or a newline ends such a word
+		for i < n && r[i] != ' ' && r[i] != '\n' {
+			i++
+		}
+	} else {
+		for i < n && !unicode.IsSpace(r[i]) {
+			i++
+		}
 	}
 	w := r[w0:i]
 	depth := 0
@@ -278,10 +352,6 @@ func scanWord(r []rune, i int, set map[string]bool) int {
 			if k > 0 {
 				set["hash-in-word"] = true
 			}
-		case '<':
-			if k == len(w)-1 {
-				set["angle-word"] = true
-			}
 		case '{':
 			if len(w) == 1 {
 				break
@@ -310,13 +380,14 @@ func markerRune(c rune) bool {
 	return c >= 'a' && c <= 'z' || c >= 'A' && c <= 'Z' || c >= '0' && c <= '9' || c == '_' || c == '-'
 }
 
-// wellFormedHeredoc: `<<MARKER\n` body `\n` padding MARKER (white space | EOF), where padding is
-// blanks only, every non-empty body line starts with the padding, and MARKER does not occur
-// earlier in the body. Returns the index after the closing marker.
-func wellFormedHeredoc(r []rune, i int) (end int, empty bool, ok bool) {
+// heredocSpan: `<<MARKER\n` followed by the first later occurrence of MARKER, which is where the
+// lexer ends the heredoc (an unterminated heredoc spans the rest of the input: the lexer rejects
+// it and the formatter copies it). empty = the marker occurs on the first body line (no body
+// lines); glued = the closing marker is not followed by white space.
+func heredocSpan(r []rune, i int) (end int, empty, glued, ok bool) {
 	n := len(r)
 	if i+1 >= n || r[i+1] != '<' {
-		return 0, false, false
+		return 0, false, false, false
 	}
 	j := i + 2
 	for j < n && markerRune(r[j]) {
@@ -324,10 +395,9 @@ func wellFormedHeredoc(r []rune, i int) (end int, empty bool, ok bool) {
 	}
 	marker := r[i+2 : j]
 	if len(marker) == 0 || j >= n || r[j] != '\n' {
-		return 0, false, false
+		return 0, false, false, false
 	}
 	body0 := j + 1
-	// first occurrence of marker in the body = where the lexer stops
 	k := body0
 	for ; k+len(marker) <= n; k++ {
 		if equalRunes(r[k:k+len(marker)], marker) {
@@ -335,42 +405,15 @@ func wellFormedHeredoc(r []rune, i int) (end int, empty bool, ok bool) {
 		}
 	}
 	if k+len(marker) > n {
-		return 0, false, false
+		return n, false, false, true // never closed
 	}
 	e := k + len(marker)
-	if e < n && !unicode.IsSpace(r[e]) {
-		return 0, false, false
-	}
-	// padding = text between the last newline before k and k
+	glued = e < n && !unicode.IsSpace(r[e])
 	p := k
 	for p > body0 && r[p-1] != '\n' {
 		p--
 	}
-	padding := r[p:k]
-	for _, c := range padding {
-		if c != ' ' && c != '\t' {
-			return 0, false, false
-		}
-	}
-	// every body line is empty or starts with the padding
-	ls := body0
-	for ls < p {
-		le := ls
-		for r[le] != '\n' {
-			le++
-		}
-		line := r[ls:le]
-		if len(line) > 0 && !(len(line) >= len(padding) && equalRunes(line[:len(padding)], padding)) {
-			return 0, false, false
-		}
-		for _, c := range line {
-			if c == '\r' {
-				return 0, false, false
-			}
-		}
-		ls = le + 1
-	}
-	return e, p == body0, true
+	return e, p == body0, glued, true
 }
 
 func equalRunes(a, b []rune) bool {
@@ -386,8 +429,8 @@ func equalRunes(a, b []rune) bool {
 }
 
 // inProvedFragment re-implements the Lean predicate `inW` (lean/CaddyModel/C17/Fragment.lean):
-// plain words, non-CR white space, `… {⏎ … ⏎}` blocks, comments without backtick / backslash /
-// trailing blank (not right after a brace on the same line, not right before `{`). On this
+// plain words, non-CR white space, `… {⏎ … ⏎}` blocks, comments without backslash / trailing blank (not right
+// after a brace on the same line, not right before `{`). On this
 // fragment token preservation and idempotence are THEOREMS (Props.fmt_preserves_tokens_partial /
 // fmt_idempotent_partial); the model prints the same bit (field W:), so the two definitions are
 // compared on every case.
@@ -438,7 +481,7 @@ func inProvedFragment(x string) bool {
 			}
 			carry = w[k:]
 			for _, c := range w[1:k] {
-				if c == '`' || c == '\\' {
+				if c == '\\' {
 					return false
 				}
 			}
